@@ -772,6 +772,12 @@ class TLSRecordLayer(object):
             avail_sig_algs = self._sigHashesToList(HandshakeSettings(), p_key,
                                                    cert, version=(3, 4))
             sig_scheme = getFirstMatching(avail_sig_algs, valid_sig_algs)
+            if sig_scheme is None:
+                for result in self._sendError(
+                        AlertDescription.handshake_failure,
+                        "No common signature algorithm usable with "
+                        "our certificate"):
+                    yield result
             scheme = SignatureScheme.toRepr(sig_scheme)
             sig_scheme = getattr(SignatureScheme, scheme)
 
